@@ -25,7 +25,7 @@
 EXTENDS ConnP
 
 CONSTANTS CW0, SW0, OCW0, OSW0, MFS0, MAXS,   \* connection parameters
-          SidsUsed, CKinds, Reqs, Trailers, DataLens, Pads, WuIncs, IwsVals, MfsVals, RstCodes,
+          SidsUsed, ESs, CKinds, Reqs, Trailers, DataLens, Pads, WuIncs, IwsVals, MfsVals, RstCodes,
           CLs, HOps, ReadLens, WriteLens, N400C, N400T, MaxSteps, MaxData, MaxHdrs
 
 K0 == [cw0 |-> CW0, sw0 |-> SW0, ocw0 |-> OCW0, osw0 |-> OSW0, mfs0 |-> MFS0, maxs |-> MAXS]
@@ -474,16 +474,16 @@ Quiesce ==
                  holdM, want>>
 
 StimNext ==
-  \/ \E s \in SidsUsed, r \in Reqs, es \in BOOLEAN, cl \in CLs :
+  \/ \E s \in SidsUsed, r \in Reqs, es \in ESs, cl \in CLs :
         /\ (cl >= 0 => r = "post" /\ ~es)
         /\ ClientHeaders(s, r, es, cl)
-  \/ \E s \in SidsUsed, r \in Trailers, es \in BOOLEAN : InMap(s) /\ ClientHeaders(s, r, es, -1)
-  \/ \E s \in SidsUsed, L \in DataLens, pad \in Pads, es \in BOOLEAN : ClientData(s, L, pad, es)
+  \/ \E s \in SidsUsed, r \in Trailers, es \in ESs : InMap(s) /\ ClientHeaders(s, r, es, -1)
+  \/ \E s \in SidsUsed, L \in DataLens, pad \in Pads, es \in ESs : ClientData(s, L, pad, es)
   \/ \E s \in SidsUsed, c \in RstCodes : ClientRst(s, c)
   \/ \E s \in SidsUsed \cup {0}, inc \in WuIncs : ClientWu(s, inc)
   \/ \E iws \in IwsVals, mfs \in MfsVals : (iws # -1 \/ mfs # -1) /\ ClientSettings(iws, mfs)
   \/ ClientPing
-  \/ \E s \in SidsUsed, r \in Reqs, es \in BOOLEAN : ClientHeadersNEH(s, r, es)
+  \/ \E s \in SidsUsed, r \in Reqs, es \in ESs : ClientHeadersNEH(s, r, es)
   \/ ClientCont \/ ClientBreak("PING") \/ ClientBreak("SETTINGS")
   \/ \E s \in SidsUsed : ClientNoEffect("PRIORITY", s)
   \/ ClientNoEffect("PINGACK", 0) \/ ClientNoEffect("UNKNOWN", 0)
